@@ -161,9 +161,8 @@ def step_event(t0, name, opt, rule, k, text="", own_tree=False):
     src = t0 if own_tree else t0.clone()      # own_tree: the caller's very tree (with whatever bookkeeping earlier calls left on its nodes)
     nd = inorder(src)[k]
     # the realistic flow: ask on the tree, clone the node from the root, apply on the clone
-    kwcall = k % 2 == 1           # the documented parameter name is used every other time (rule.apply_to(node=...))
     try:
-        if not (rule.can_apply_to(node=nd) if kwcall else rule.can_apply_to(nd)):
+        if not rule.can_apply_to(nd):
             return None, None
     except BaseException:  # noqa  (reported by the probe event)
         return None, None
@@ -176,7 +175,7 @@ def step_event(t0, name, opt, rule, k, text="", own_tree=False):
           "node": objs.of(work), "res": 0, "printed": "", "reparse": "-", "re": {"k": "c", "n": 0, "d": 1}}
     result_root = None
     try:
-        change = rule.apply_to(node=work) if kwcall else rule.apply_to(work)
+        change = rule.apply_to(work)
         res = change.result
         if res is None or not hasattr(res, "get_root"):
             ev["outcome"] = "ok"
@@ -257,8 +256,8 @@ def probe_event(t0, name, opt, rule, text=""):
             inside = inorder(sn)
             lo = pos[id(inside[0])]
             try:
-                f = [pos.get(id(n), -1) for n in (rule.find_nodes(expression=sn) if si % 2 else rule.find_nodes(sn))]
-                fn = rule.find_node(expression=sn) if si % 2 else rule.find_node(sn)
+                f = [pos.get(id(n), -1) for n in rule.find_nodes(sn)]
+                fn = rule.find_node(sn)
                 f1 = 0 if fn is None else pos.get(id(fn), -1)
             except BaseException as e:  # noqa
                 exc = exc or type(e).__name__
@@ -337,12 +336,6 @@ def reprobe_event(tree, persistent, text, after):
     out = [{"typ": "reprobe", "rule": after, "opt": "", "text": text, "k": 0, "used": used, "fresh": fresh}]
     if again != used:
         out.append({"typ": "reprobe", "rule": "after-other-instances:" + after, "opt": "", "text": text, "k": 0, "used": again, "fresh": used})
-    # ... and asked in a process whose numpy error state is strict (np.seterr(all="raise")): the answer is a function of the tree only
-    import numpy as np
-    with np.errstate(all="raise"):
-        strict = answers(persistent)
-    if strict != used:
-        out.append({"typ": "reprobe", "rule": "numpy-error-state-raise:" + after, "opt": "", "text": text, "k": 0, "used": strict, "fresh": used})
     return out
 
 
@@ -442,13 +435,6 @@ def _events_for_text(job):
                         out.append({"typ": "reprobe", "rule": "inplace-ancestor:%s@%d" % (name, k), "opt": "", "text": text, "k": 0, "used": used, "fresh": fresh})
                 except BaseException:  # noqa
                     pass
-    if want_probe and n <= 30:
-        for name, opt, rule in rules_narrowed():
-            out.append(probe_event(t0, name, opt, rule, text))
-            for k in range(n):
-                ev, _ = step_event(t0, name, opt, rule, k, text)
-                if ev is not None:
-                    out.append(ev)
     if want_probe:
         try:
             out.extend(reprobe_event(t0.clone(), persistent, text, "start"))
